@@ -385,9 +385,24 @@ def rule_stage(fx, rep, nxt):
                     og = option_guard(e, pol)
                     if og is not None and og[1] is False and self_field(og[0], park):
                         none_edges.append((i, tg))
+        # assignments made inside a `&mut self` helper (`revisit_bad_captures_or(next_stage)`): is the helper's own assignment of the
+        # skipping value under the `None` test of the parked-moves field?
+        helper_none = set()
+        for hbb0, ht0 in nxt.calls():
+            hb0 = fx.body(callee_name(ht0)) if callee_name(ht0) else None
+            if hb0 is None or hb0 is nxt or "move_picker::MovePicker::" not in norm(hb0.name) or not park:
+                continue
+            for sb0, sj0, st0 in hb0.stmts():
+                if st0["k"] == "assign" and st0["lhs"]["l"] == 1 and [p0.get("n") for p0 in st0["lhs"].get("p", []) if isinstance(p0, dict)] == ["stage"]:
+                    for (e0, pol0, w0) in guard_conditions(hb0, sb0, expand_named=True):
+                        og0 = option_guard(e0, pol0)
+                        if og0 is not None and og0[1] is False and self_field(og0[0], park):
+                            e1 = deep_strip(hb0.expr(st0["rv"].get("op"), expand_named=True, at=sb0)) if st0["rv"]["k"] == "use" else None
+                            if isinstance(e1, tuple) and e1[0] == "arg":
+                                helper_none.add(hbb0)
         for (bb, v, line) in asg:
             cur = None
-            under_none = False
+            under_none = bb in helper_none and v != "BadCaptures"
             for (e, pol, w) in guard_conditions(nxt, bb, expand_named=True):
                 g = stage_guard(nxt, e, pol)
                 if g:
